@@ -148,7 +148,8 @@ def entry(B, cfg):
                     B.assume(v > 0)
             models.append(chi.PosteriorPredictiveModel(pm, ds))
         pam = chi.PAMPredictiveModel(models, [1.0, 1.0])
-        return lambda seed: pam.sample([1.0], n_samples=1, seed=seed)
+        ns = cfg.get('pam_samples', 1)
+        return lambda seed: pam.sample([1.0], n_samples=ns, seed=seed)
     if kind == 'init_logposterior':
         mm = SymMechModel(B, 2, 1)
         ll = chi.LogLikelihood(mm, chi.GaussianErrorModel(),
@@ -305,6 +306,13 @@ def jobs(tier):
                     continue
                 out.append(('independent', 'case_independent',
                             dict(e, own_noise_only=True, seed=seed), FACTS))
+        elif e['entry'] == 'pam':
+            # samples drawn from different candidate models (and the model
+            # choice itself) use their own part of the stream
+            for seed in (11, 0):
+                out.append(('independent', 'case_independent',
+                            dict(e, own_noise_only=True, pam_samples=2,
+                                 seed=seed), FACTS))
         elif e['entry'].startswith('init_'):
             # the initial points of one call: every entry of every row has
             # its own noise (rows are not copies of one restarted stream)
